@@ -363,6 +363,9 @@ impl TypedProp for C13 {
                 let mut any_override = false;
                 let mut fail: Option<Fail> = None;
                 let universe: Vec<u16> = MODS.iter().chain(INS.iter()).map(|n| code_of(n)).collect();
+                // physical truth: which universe keys are down
+                let mut phys: BTreeSet<u16> = BTreeSet::new();
+                let mut phys_fail: Option<Fail> = None;
                 let mut check = |sim: &mut Sim, os: &mut OsState, applied: &mut usize, when: &str| {
                     // settle: queue drained
                     for _ in 0..40 {
@@ -412,8 +415,14 @@ impl TypedProp for C13 {
                 };
                 for (i, ev) in case.hist.iter().enumerate() {
                     match ev {
-                        Ev::Press(k) => sim.press(*k),
-                        Ev::Release(k) => sim.release(*k),
+                        Ev::Press(k) => {
+                            phys.insert(*k);
+                            sim.press(*k)
+                        }
+                        Ev::Release(k) => {
+                            phys.remove(k);
+                            sim.release(*k)
+                        }
                         Ev::Gap(g) => {
                             for _ in 0..*g {
                                 sim.tick();
@@ -427,6 +436,33 @@ impl TypedProp for C13 {
                     if next_is_gap && !case.release_on_activation {
                         check(&mut sim, &mut os, &mut applied, &format!("event #{i}"));
                     }
+                    // "when the combination ends ... modifiers that are still held come back":
+                    // with no non-modifier key physically held no override can be active, so the OS
+                    // must see exactly the modifiers that are physically held
+                    let mods: Vec<u16> = MODS.iter().map(|n| code_of(n)).collect();
+                    if next_is_gap && phys.iter().all(|k| mods.contains(k)) {
+                        for _ in 0..40 {
+                            if sim.k.layout.b().queue.is_empty() {
+                                break;
+                            }
+                            sim.tick();
+                        }
+                        sim.tick_n(3);
+                        for o in &sim.outs[applied..] {
+                            os.apply(o);
+                        }
+                        applied = sim.outs.len();
+                        if os.keys != phys && phys_fail.is_none() {
+                            phys_fail = Some(Fail {
+                                sig: "mismatch:override-held-modifiers-not-restored".into(),
+                                detail: format!(
+                                    "{text}after event #{i} only modifiers {:?} are physically held, but the OS sees {:?}",
+                                    phys.iter().map(|c| out_name(*c)).collect::<Vec<_>>(),
+                                    os.keys.iter().map(|c| out_name(*c)).collect::<Vec<_>>()
+                                ),
+                            });
+                        }
+                    }
                 }
                 sim.tick_n(30);
                 for o in &sim.outs[applied..] {
@@ -434,6 +470,8 @@ impl TypedProp for C13 {
                 }
                 let mut v = Verdict::pass(any_override || case.release_on_activation);
                 if let Some(f) = fail {
+                    v.fail = Some(f);
+                } else if let Some(f) = phys_fail {
                     v.fail = Some(f);
                 } else if os.anything_down() {
                     v = Verdict::failed(
